@@ -1060,24 +1060,37 @@ class StoreLib(LibBase):
                                  ("interrupt_and_resume_all_delayed_interrupt_processes", [("reason", ("opaque",), NONE)])):
                 if nm_.startswith("interrupt_and") and cls != "C":
                     continue
-                a_ = FnContract(nm_, params_, post=lambda c: [], uses_inv=False, keeps_inv=False, modifies=bk, props=("C12",))
-                a_.assumed = True
+                # VERIFIED (was assumed): frame -- no request list, item list, event or clock field is touched, in the
+                # loops too (derived loop invariant `frame.*`) -- and no exception escapes; the pattern analysis they
+                # call (_get_belt_pattern, _analyze_pattern_for_interruption, _calculate_gap_based_interruptions,
+                # _execute_interruption_plan) stays assumed
+                a_ = FnContract(nm_, params_, post=lambda c: [], uses_inv=False, keeps_inv=False, modifies=bk,
+                                props=("C12", "C20"))
                 C[nm_] = a_
             # interruption planning for an item that enters a stalled belt: pattern analysis over the belt, delayed
             # interrupt processes, bookkeeping dictionaries.  NOT verified: assumed to touch none of the request
             # lists, items or ready items (its only effect is on which mover processes get interrupted when)
             # helpers of the planner (pattern strings, numpy): assumed, results outside the model
             for nm_, params_ in (("_get_belt_pattern", []),
+                                 ("_analyze_pattern_for_interruption", [("pattern", ("opaque",), None)]),
+                                 ("_execute_interruption_plan", [("interruption_plan", ("opaque",), None), ("reason", ("opaque",), None)]),
                                  ("_calculate_gap_based_interruptions", [("pattern", ("opaque",), None), ("item_positions", ("opaque",), None)]
                                   + ([("belt_rep", ("opaque",), None)] if cls == "C" else [])),
                                  ("_interrupt_specific_item", [("item_id", ("opaque",), None), ("reason", ("opaque",), None)])):
                 a_ = FnContract(nm_, params_, post=lambda c: [], uses_inv=False, keeps_inv=False, modifies=bk,
-                                result_kind=("opaque",) if nm_ != "_interrupt_specific_item" else ("none",), props=("C12",))
-                a_.assumed = True
+                                result_kind=("opaque",) if nm_ not in ("_interrupt_specific_item", "_execute_interruption_plan") else ("none",),
+                                props=("C12", "C20") if nm_ == "_interrupt_specific_item" else ("C12",))
+                # _interrupt_specific_item is VERIFIED (frame: no request list, item list or event is touched; no
+                # exception escapes: a RuntimeError of Process.interrupt() is caught); the pattern helpers stay assumed
+                a_.assumed = nm_ != "_interrupt_specific_item"
                 C[nm_] = a_
-            di = FnContract("_delayed_interrupt", [("item_id", ("opaque",), None), ("delay", ("opaque",), None),
-                                                   ("reason", ("opaque",), None)], is_generator=True, props=("C12",))
-            di.assumed = True
+            # _delayed_interrupt(item_id, delay, reason): VERIFIED -- waits exactly `delay` (needs delay >= 0: an
+            # obligation at every site that starts one), then interrupts through _interrupt_specific_item; touches only
+            # the bookkeeping dictionaries; no exception escapes
+            di = FnContract("_delayed_interrupt", [("item_id", ("opaque",), None), ("delay", ("num", "real"), None),
+                                                   ("reason", ("opaque",), None)],
+                            pre=lambda st, args: [("delay-nonnegative", V.as_num(args["delay"]).t >= 0)],
+                            modifies=bk, is_generator=True, props=("C12", "C20"))
             C["_delayed_interrupt"] = di
 
             # handle_new_item_during_interruption(item): how long the new item may still move is computed by the assumed
@@ -1097,8 +1110,7 @@ class StoreLib(LibBase):
                             post=lambda c: [Structural("every-delayed-interruption-it-starts-is-registered", registered_ok,
                                                        ("C12",), caller_effect=lambda c: None)],
                             uses_inv=False, keeps_inv=False, modifies=bk, props=("C12",))
-            if cls != "C":
-                hn.assumed = True       # (slotted store: same code shape, never reached: the slotted conveyor never stalls)
+            # (slotted store: verified as well -- frame, and the delay of the interruption it starts is >= 0)
             C["handle_new_item_during_interruption"] = hn
 
         # ---- reserve_put_cancel
@@ -1577,7 +1589,7 @@ class StoreLib(LibBase):
         if attr == "env" and isinstance(v, EnvRef):
             return [Outcome("next", st)]
         sch = self.schema(ex.ctx.cls)
-        if isinstance(v, SList) and v.ekind == ("any",) and attr in sch and sch[attr][0] == "list":
+        if isinstance(v, SList) and v.ekind == ("any",) and V.is_literally_empty(v) and attr in sch and sch[attr][0] == "list":
             st.f[attr] = V.list_empty(sch[attr][1])
             return [Outcome("next", st)]
         return None
@@ -1652,6 +1664,20 @@ class StoreLib(LibBase):
         if base.tag == "module:np" and name == "abs":
             n = V.as_num(args[0])
             return [(Num(z3.If(n.t < 0, -n.t, n.t)), st)]
+        if name == "interrupt" and "active_" in base.tag and ("_processes[" in base.tag or base.tag.endswith("_processes.items()).elem.value")):
+            # K-interrupt-call (SimPy, assumed): Process.interrupt(cause) on a mover / delayed-interruption process taken
+            # from the bookkeeping dictionaries either raises RuntimeError (process finished, or interrupting itself) or
+            # schedules an Interruption for that process; it runs no user code now and touches no store field
+            s1 = st.fork()
+            s1.ghost.setdefault("interrupt_calls", []).append((base.tag, node.lineno))
+            s2 = st.fork()
+            return [(NONE, s1), (Exc("RuntimeError", node.lineno, "Process.interrupt() on a finished process"), s2)]
+        if name == "pop" and len(args) == 2 and base.tag.endswith(("active_move_processes", "active_delayed_interrupt_processes")):
+            # A-bookkeeping: dict.pop(key, default) on a bookkeeping dictionary never raises; the dictionaries are
+            # outside the modelled state
+            return [(VOpaque(base.tag + ".pop()"), st)]
+        if name in ("items", "keys", "values") and not args and base.tag.endswith(("active_move_processes", "active_delayed_interrupt_processes")):
+            return [(VOpaque(base.tag + "." + name + "()"), st)]     # a view of a bookkeeping dictionary: outside the model
         if base.tag == "callbacks" and name == "append" and isinstance(args[0], V.VFunc):
             s = st.fork()
             s.ghost.setdefault("callbacks", []).append((base.event, args[0].name))
